@@ -118,6 +118,34 @@ CHECKS["C11"] = dict(
          "the other timer is exactly as last reported.",
     technique="exhaustive enumeration of API calls x configurations against an independent reference decoder")
 
+CHECKS["C03"] = dict(
+    level="exploration", design="DESIGN.md §6 C03",
+    text="All 36 message/request classes (18 per generation) inside their 0x1F/0xC0 wrappers are enumerated over their protocol "
+         "domains (full products for the control records; every field over its whole domain x base records, record counts "
+         "0..16, ASCII and 2/3/4-byte UTF-8 names otherwise; packet ids run through all 256 values) and pushed through the real "
+         "send path of one socket, framed by the reference framer (announced length, CRC, AT5 outer length), fed into the real "
+         "receive path of a second socket and compared with what was sent; size() computed in advance must equal the bytes "
+         "produced, for the wrapper and the nested sub-message.",
+    technique="exhaustive enumeration of message values through the real send/receive pair with an independent framer in between")
+CHECKS["C05"] = dict(
+    level="exploration", design="DESIGN.md §6 C05",
+    text="For the six status record layouts: every byte over 0..255 on three base records, every adjacent byte pair over all "
+         "65536 values, record counts 0..16, AT5 strides from below the layout to +8; for ability/names/error/version answers: "
+         "every byte of the ability record, following-length 0..39, 1..4 records, every group bitmap bit, strings incl. multi-byte "
+         "and invalid UTF-8, wrong lengths. Each payload is decoded through the registry's wrapper decoders and compared field by "
+         "field with the spec-derived reference reading (value / not-available / unspecified); malformed payloads must not be "
+         "decoded to a different reading; fully defined records must not be rejected.",
+    technique="exhaustive enumeration of payload bytes (per field and per adjacent byte pair) against a spec-derived reference decoder")
+CHECKS["C06"] = dict(
+    level="model_checking", design="DESIGN.md §6 C06",
+    text="Part A: the CRC register is a 65536-state machine; all 1-, 2- and 3-byte strings (16.8 M calls of calculate()) are "
+         "compared with a bit-by-bit CRC-16/MODBUS, which exercises every (register, byte) transition; validate() on the same "
+         "sets; single-position sweeps to length 64. Part B: for 16 frame kinds every single-bit, double-bit and burst error "
+         "(<= 4 bits quick, <= 8/16 thorough) over covered and check bytes must fail validate(); every single-bit and burst-corner "
+         "corruption is fed to a real socket followed by intact probes: nothing delivered for it, old connection closed by the "
+         "client, new one opened, a later probe delivered.",
+    technique="explicit-state exhaustion of the CRC automaton + exhaustive fault enumeration on the real receive path")
+
 NOT_YET = {}
 
 
